@@ -163,7 +163,7 @@ def run(env) -> Result:
         except Exception as e:  # noqa: BLE001
             return ("err", type(e).__name__)
 
-    for h in range(40 if tier == "quick" else 800):
+    for h in range(40 if tier == "quick" else 500):
         ncs = rnd.choice([2, 2, 3])
         universes = []
         for i in range(ncs):
@@ -279,15 +279,15 @@ def run(env) -> Result:
                     viol(f"parsing with cs{j} changed after an operation on another object ({history[-1]})", cd)
             before = after
     # purity histories over cstruct objects that share definition text but not constants / typedefs (see s6_c14)
-    s6_c14.run(env, res, viol, mkrng(env["seed"], "c14:s6"), 24 if tier == "quick" else 400)
+    s6_c14.run(env, res, viol, mkrng(env["seed"], "c14:s6"), 24 if tier == "quick" else 300)
     # history independence of resolve / parse / construct (alias chains re-pointed with replace=True; dumps & co. before construction)
-    t4_c14.run(env, res, viol, mkrng(env["seed"], "c14:t4"), 60 if tier == "quick" else 1000, 60 if tier == "quick" else 1000)
+    t4_c14.run(env, res, viol, mkrng(env["seed"], "c14:t4"), 60 if tier == "quick" else 600, 60 if tier == "quick" else 600)
     # types whose size / constants change between two parses (sizeof(T) and constants in parse-time array lengths)
-    u3_c14.run(env, res, viol, mkrng(env["seed"], "c14:u3"), 60 if tier == "quick" else 1000)
+    u3_c14.run(env, res, viol, mkrng(env["seed"], "c14:u3"), 60 if tier == "quick" else 600)
     # what load(D, align=a, compiled=c) creates does not depend on the options of the earlier loads of the same object
-    v4_c14.run(env, res, viol, mkrng(env["seed"], "c14:v4"), 100 if tier == "quick" else 1000)
+    v4_c14.run(env, res, viol, mkrng(env["seed"], "c14:v4"), 100 if tier == "quick" else 600)
     # bound dumps / write / read / reads callables kept across operations on other instances, types and cstruct objects
-    v5_c14.run(env, res, viol, mkrng(env["seed"], "c14:v5"), 60 if tier == "quick" else 1500)
+    v5_c14.run(env, res, viol, mkrng(env["seed"], "c14:v5"), 60 if tier == "quick" else 900)
     # parses that fail inside the evaluation of an array-length expression, then good parses with the same types (harness/v6_c14.py)
     v6_c14.run(env, res, lambda w, d: viol(w, d), mkrng(env["seed"], "c14:v6"), impl.dc())
     # type objects of one cstruct object registered on another one (add_type by class), then used there; the owner must not notice
